@@ -367,6 +367,12 @@ def g_221(ch, pool, ctx, opts, depth):
             have_dropped = True
     if not ctx.in_rep:
         ctx.min_plain += 1
+    if not ctx.in_numop and not ctx.in_208 and ch.bool(1, 3):
+        # an operator pair among the YYY descriptors (they count, and take effect, like anywhere else)
+        j = ch.int(0, k - 1)
+        op, cancel = ch.choice([(201129, 201000), (202129, 202000), (207001, 207000), (208003, 208000)])
+        ids = ids[:j] + [op, ids[j], cancel] + ids[j + 1:]
+        k += 2
     _reserve(ctx, k + 1)
     ctx.features.add('221')
     return [221000 + k] + ids
